@@ -35,7 +35,8 @@ func (r *Parser) NextBytes(n int) ([]byte, error) {
 }
 
 func (r *Parser) Read(b []byte) (int, error) {
-	n, err := r.r.Read(b)
+	// a single Read may legitimately return fewer bytes than asked for
+	n, err := io.ReadFull(r.r, b)
 	r.pos += n
 	return n, err
 }
